@@ -79,23 +79,7 @@ type gen struct {
 }
 
 func (g *gen) coins(c *c09lib.Cfg, wantDenom string) sdk.Coins {
-	r := g.r
-	d := wantDenom
-	if d == "" {
-		d = c09lib.Denoms[r.Intn(len(c09lib.Denoms))]
-	}
-	amt := int64(1 + r.Intn(2000))
-	if d == "ukex" && r.Chance(60) {
-		amt = int64(c.MaxSend) + int64(r.Intn(3)) - 1
-		if amt <= 0 {
-			amt = 1
-		}
-	}
-	cs := sdk.NewCoins(sdk.NewInt64Coin(d, amt))
-	if wantDenom == "" && r.Chance(20) {
-		cs = cs.Add(sdk.NewInt64Coin(c09lib.Denoms[r.Intn(len(c09lib.Denoms))], int64(1+r.Intn(50))))
-	}
-	return cs
+	return c09lib.CoinSet(g.r, c.MaxSend, wantDenom)
 }
 
 func (g *gen) msg(c *c09lib.Cfg, kind, from, denom string) c09lib.M {
@@ -111,12 +95,7 @@ func (g *gen) msg(c *c09lib.Cfg, kind, from, denom string) c09lib.M {
 		return c09lib.M{Kind: "custody_send", From: from, To: to, Amt: g.coins(c, denom)}
 	case "multisend":
 		a := g.coins(c, denom)
-		to2 := g.people[r.Intn(len(g.people))]
-		if len(a) == 1 && a[0].Amount.GT(sdk.OneInt()) && r.Bool() {
-			h := a[0].Amount.QuoRaw(2)
-			return c09lib.M{Kind: "multisend", From: from, Amt: a, Outs: []c09lib.Out{{to, sdk.NewCoins(sdk.NewCoin(a[0].Denom, h))}, {to2, sdk.NewCoins(sdk.NewCoin(a[0].Denom, a[0].Amount.Sub(h)))}}}
-		}
-		return c09lib.M{Kind: "multisend", From: from, Amt: a, Outs: []c09lib.Out{{to, a}}}
+		return c09lib.M{Kind: "multisend", From: from, Amt: a, Outs: c09lib.SplitOutputs(r, a, g.people)}
 	case "eth":
 		amt := int64(r.Intn(2000))
 		if r.Chance(50) {
@@ -269,6 +248,55 @@ func main() {
 						ms = append(ms, c09lib.M{Kind: "send", From: "a0", To: "a1", Amt: sdk.NewCoins(sdk.NewInt64Coin("ukex", 5))})
 					}
 					run(c, c09lib.TxSpec{Fee: fee(200), Msgs: ms, Seqs: []uint64{0}, SigOK: true}, "sweep")
+				}
+			}
+		}
+	}
+	// coin SETS: every transfer message kind x position x healthy/weak network x a fixed list of sets
+	// (native within / above the limit plus foreign coins, frozen coin first / second / third, foreign only,
+	// reversed and duplicated sets), judged per coin by the checker
+	{
+		K := func(d string, v int64) sdk.Coin { return sdk.NewInt64Coin(d, v) }
+		sets := []sdk.Coins{
+			{K("ubtc", 7), K("ukex", 1000)},               // native at the limit + foreign
+			{K("ubtc", 7), K("ukex", 1001)},               // native above the limit + foreign
+			{K("ukex", 999), K("xeth", 3)},                // native within the limit first, foreign second
+			{K("frozen", 5), K("ukex", 10)},               // frozen first
+			{K("ubtc", 5), K("xeth", 4)},                  // (whitelist mode) frozen second
+			{K("ubtc", 5), K("ukex", 10), K("xeth", 4)},   // (whitelist mode) frozen third, native in the middle
+			{K("frozen", 5), K("ubtc", 6), K("ukex", 1000)},
+			{K("ubtc", 9)},                                // foreign only
+			{K("ukex", 10), K("ubtc", 7)},                 // reversed: not canonical
+			{K("ukex", 10), K("ukex", 10)},                // duplicated denomination
+		}
+		for _, weak := range []bool{false, true} {
+			for _, wl := range []bool{false, true} {
+				for _, k := range []string{"send", "multisend", "custody_send"} {
+					for pos := 0; pos < 2; pos++ {
+						for _, set := range sets {
+							c := baseCfg()
+							if weak {
+								c.MinVals = 2
+							}
+							if wl {
+								c.EnWhite, c.White = true, []string{"ukex", "ubtc"}
+							}
+							c.PoorMsgs = []string{"register_identity_records"}
+							if k != "send" && pos == 1 {
+								c.PoorMsgs = append(c.PoorMsgs, k) // the message type itself is on the allowed list
+							}
+							var ms []c09lib.M
+							for i := 0; i < pos; i++ {
+								ms = append(ms, g.msg(c, "register_identity_records", "a3", ""))
+							}
+							m := c09lib.M{Kind: k, From: "a3", To: "a1", Amt: set}
+							if k == "multisend" {
+								m.Outs = c09lib.SplitOutputs(r, set, g.people)
+							}
+							ms = append(ms, m)
+							run(c, c09lib.TxSpec{Fee: fee(180), Msgs: ms, Seqs: []uint64{0}, SigOK: true}, "coin-sets")
+						}
+					}
 				}
 			}
 		}
